@@ -28,7 +28,7 @@ _counter = itertools.count()
 
 
 def fresh(prefix):
-    return "%s!%d" % (prefix, next(_counter))
+    return "%s!%d" % (prefix.replace("|", "_"), next(_counter))
 
 
 class CheckerError(Exception):
@@ -250,6 +250,7 @@ def _pyfloor_div(a, b):
 # they are the uninterpreted functions fdiv / fmod, constrained by the lemma library DIV_LEMMAS (each lemma
 # is itself discharged by z3 over the interpreted div / mod as a separate obligation, see lemmas.py).
 ABSTRACT_NL = [True]
+ABSTRACT_REAL = [False]      # opt-in per contract (abstract_real=True): products / quotients of symbolic reals behind UFs
 FDIV = z3.Function("fdiv", z3.IntSort(), z3.IntSort(), z3.IntSort())
 FMOD = z3.Function("fmod", z3.IntSort(), z3.IntSort(), z3.IntSort())
 
@@ -279,6 +280,30 @@ def div_lemmas(D, M):
 
 
 IMUL = z3.Function("imul", z3.IntSort(), z3.IntSort(), z3.IntSort())
+# products / quotients of two *symbolic* reals are kept behind uninterpreted functions as well: the verified code and
+# the contracts build the same terms, so congruence decides the obligations and the solver stays in linear arithmetic
+# (contracts that need real nonlinear reasoning switch this off with abstract_nl=False)
+RMUL = z3.Function("rmul", z3.RealSort(), z3.RealSort(), z3.RealSort())
+RDIV = z3.Function("rdiv", z3.RealSort(), z3.RealSort(), z3.RealSort())
+
+
+def _is_numeral(t):
+    t = z3.simplify(t)
+    return z3.is_rational_value(t) or z3.is_int_value(t) or (z3.is_app(t) and t.decl().kind() == z3.Z3_OP_TO_REAL and z3.is_int_value(t.arg(0)))
+
+
+def rmul(x, y):
+    if _is_numeral(x) or _is_numeral(y):
+        return x * y
+    x, y = z3.simplify(x), z3.simplify(y)       # canonical argument order must not depend on how a term was written
+    a, b = (x, y) if x.get_id() <= y.get_id() else (y, x)
+    return RMUL(a, b)
+
+
+def rdiv(x, y):
+    if _is_numeral(y):
+        return x / y
+    return RDIV(z3.simplify(x), z3.simplify(y))
 
 
 def _split_const(t):
@@ -324,6 +349,7 @@ def imul(a, b):
         else:
             t = z3.Sum([imul(ra, x) for x in rb.children()])
         return c * t if c != 1 else t
+    ra, rb = z3.simplify(ra), z3.simplify(rb)
     x, y = (ra, rb) if ra.get_id() <= rb.get_id() else (rb, ra)
     t = IMUL(x, y)
     return c * t if c != 1 else t
@@ -343,6 +369,16 @@ def mul_lemmas(M):
         "mul-strict-right": (z3.Implies(z3.And(y >= 1, x < z), M(y, x) + y <= M(y, z)), [twob]),
         "mul-pos": (z3.Implies(z3.And(x >= 1, y >= 1), z3.And(M(x, y) >= x, M(x, y) >= y)), [[M(x, y)]]),
     }
+
+
+def comm_axioms(real=False):
+    """commutativity of the abstracted products (canonical argument order is not stable under substitution)"""
+    x, y = z3.Ints("cm.x cm.y")
+    out = [z3.ForAll([x, y], IMUL(x, y) == IMUL(y, x), patterns=[IMUL(x, y)])]
+    if real:
+        u, v = z3.Reals("cm.u cm.v")
+        out.append(z3.ForAll([u, v], RMUL(u, v) == RMUL(v, u), patterns=[RMUL(u, v)]))
+    return out
 
 
 def mul_axioms():
@@ -445,6 +481,8 @@ def arith(op, a, b):
         return NotImplemented
     isr = _is_real_kind(a) or _is_real_kind(b)
     if op == "/":
+        if ABSTRACT_REAL[0]:
+            return wrap(rdiv(treal(a), treal(b)))
         return wrap(treal(a) / treal(b))
     if op == "**":
         if isinstance(b, int) or (isinstance(b, Fraction) and b.denominator == 1):
@@ -466,6 +504,8 @@ def arith(op, a, b):
         if op == "-":
             return wrap(x - y)
         if op == "*":
+            if ABSTRACT_REAL[0]:
+                return wrap(rmul(x, y))
             return wrap(x * y)
         if op in ("//", "%"):
             raise CheckerError("// or % on reals is outside the verified subset")
@@ -495,7 +535,7 @@ def compare(op, a, b):
         b = Fraction(b)
     if isinstance(a, (int, Fraction)) and isinstance(b, (int, Fraction)):
         return {"<": a < b, "<=": a <= b, ">": a > b, ">=": a >= b, "==": a == b, "!=": a != b}[op]
-    if isinstance(a, (SBool, bool)) and isinstance(b, (SBool, bool)):
+    if isinstance(a, (SBool, bool)) and isinstance(b, (SBool, bool)) and op in ("==", "!="):
         x, y = tb(a), tb(b)
     elif isinstance(a, (int, Fraction, SInt, SReal, SBool)) and isinstance(b, (int, Fraction, SInt, SReal, SBool)):
         if isinstance(a, SBool):
@@ -541,6 +581,15 @@ class Elem:
         return {"int": z3.IntSort(), "real": z3.RealSort(), "bool": z3.BoolSort()}[self.kind]
 
 
+def select(arr, i):
+    """arr[i] with eager beta reduction when arr is a lambda term (keeps lambdas out of the solver where possible)"""
+    if z3.is_quantifier(arr) and arr.is_lambda() and arr.num_vars() == 1:
+        return z3.substitute_vars(arr.body(), i)
+    if z3.is_app(arr) and arr.decl().kind() == z3.Z3_OP_CONST_ARRAY:
+        return arr.arg(0)
+    return z3.Select(arr, i)
+
+
 class SSeq(Sym):
     """list / 1-D ndarray with symbolic length.  Mutable object with identity."""
 
@@ -552,6 +601,8 @@ class SSeq(Sym):
         self.none = none          # optional z3 Array Int -> Bool: element is None
         self.name = name or fresh("seq")
         self.frozen = False       # parameter that must not be written (frame)
+        self.defn = None          # (bound variable, body): arr[k] == body for 0 <= k < length (reads are beta-reduced)
+        self.defn_none = None
 
     @staticmethod
     def fresh(prefix, kind="ndarray", ekind="real", length=None, opt=False):
@@ -566,9 +617,16 @@ class SSeq(Sym):
     def get(self, i):
         if self.ekind == "opaque":
             return SOpaque("elem")
-        v = wrap(z3.Select(self.arr, tz(i)))
+        d = getattr(self, "defn", None)
+        if d is not None and d[0] is not None and getattr(self, "_defn_arr", None) is not None and self.arr.eq(self._defn_arr):
+            v = wrap(z3.substitute(d[1], (d[0], tz(i))))
+        else:
+            v = wrap(select(self.arr, tz(i)))
         if self.none is not None:
-            return SOpt(wrap(z3.Select(self.none, tz(i))), v)
+            dn = getattr(self, "defn_none", None)
+            if dn is not None and getattr(self, "_defn_none_arr", None) is not None and self.none.eq(self._defn_none_arr):
+                return SOpt(wrap(z3.substitute(dn[1], (dn[0], tz(i)))), v)
+            return SOpt(wrap(select(self.none, tz(i))), v)
         return v
 
     def __repr__(self):
